@@ -226,3 +226,39 @@ Example C10_read_failure_retry :
     get_thread (threads s5) 5 = Some th5 /\ t_resp th5 = Some (RErr EStoreRead) /\ persisted s5 = persisted s /\
     v_revs s5 = [].
 Proof. exact e2_read_failure_revert. Qed.
+
+(* ---- graceful shutdown (AClose / ACloseOk) -------------------------------------------------------------------------- *)
+(* [AClose] is state-wise [ACrash], [ACloseOk] is [APersistOk] then [ACrash]; both are actions of [reachable], so
+   C10_once holds across them.  The table of reverts in progress is gone with the generation: *)
+Theorem C10_close_frees_reverts : forall s a s', a = AClose \/ a = ACloseOk -> step s a = Some s' ->
+  v_iks s' = [] /\ v_refs s' = [] /\ v_revs s' = [] /\ v_locks s' = [] /\ v_queue s' = [].
+Proof. exact e2_close_frees. Qed.
+Print Assumptions C10_close_frees_reverts.
+
+(* non-vacuity: the revert of transaction 1 (request 3) has appended its entry, QUEUED behind the batch of request 2
+   inside the store call; [AClose] drops both: request 3 is answered [RCrashed], transaction 1 is NOT reverted on disk,
+   the table is empty, nothing is published; a NEW revert of transaction 1 (request 4) in the next generation commits:
+   exactly one revert entry.  With [ACloseOk] (the batch of request 2 is written, the queued revert still dropped):
+   the same. *)
+Example C10_close_during_revert :
+  (exists s0 s1 s th3 th4,
+     run init (e2_rf_fund ++ e2_rf_tx1 ++ e2_close_busy 2 ++ AStart 3 e2_rev1 :: e2_rs 3 10) = Some s0 /\
+     option_map (map e_owner) (v_batch s0) = Some [2] /\ map (fun e => (e_owner e, e_reverts e)) (v_pending s0) = [(3, Some 1)] /\
+     v_revs s0 = [1] /\
+     run init (e2_rf_fund ++ e2_rf_tx1 ++ e2_close_busy 2 ++ AStart 3 e2_rev1 :: e2_rs 3 10 ++ [AClose]) = Some s1 /\
+     persisted s1 = persisted s0 /\ map e_owner (persisted s1) = [0; 1] /\
+     count_where (fun e => match e_reverts e with Some 1 => true | _ => false end) (persisted s1) = 0 /\
+     v_pending s1 = [] /\ v_batch s1 = None /\ v_revs s1 = [] /\ published s1 = published s0 /\
+     run init (e2_rf_fund ++ e2_rf_tx1 ++ e2_close_busy 2 ++ AStart 3 e2_rev1 :: e2_rs 3 10 ++ [AClose] ++ e2_rf_rev_full 4) = Some s /\
+     get_thread (threads s) 3 = Some th3 /\ get_thread (threads s) 4 = Some th4 /\ t_req th4 = t_req th3 /\
+     rq_kind (t_req th3) = KRevert /\ rq_revert (t_req th3) = 1 /\
+     t_resp th3 = Some RCrashed /\ t_resp th4 = Some (ROk (Some 2)) /\
+     map (fun e => (e_owner e, e_reverts e)) (persisted s) = [(0, None); (1, None); (4, Some 1)] /\
+     count_where (fun e => match e_reverts e with Some 1 => true | _ => false end) (persisted s) = 1 /\ v_revs s = []) /\
+  (exists s th3 th4,
+     run init (e2_rf_fund ++ e2_rf_tx1 ++ e2_close_busy 2 ++ AStart 3 e2_rev1 :: e2_rs 3 10 ++ [ACloseOk] ++ e2_rf_rev_full 4) = Some s /\
+     get_thread (threads s) 3 = Some th3 /\ get_thread (threads s) 4 = Some th4 /\
+     t_resp th3 = Some RCrashed /\ t_resp th4 = Some (ROk (Some 3)) /\
+     map (fun e => (e_owner e, e_reverts e)) (persisted s) = [(0, None); (1, None); (2, None); (4, Some 1)] /\
+     count_where (fun e => match e_reverts e with Some 1 => true | _ => false end) (persisted s) = 1 /\ v_revs s = []).
+Proof. exact e2_close_during_revert. Qed.
